@@ -185,6 +185,10 @@ func c07Judge(stream []byte) (badAt int, ambiguous bool, why string) {
 		}
 		body := stream[pos+4 : pos+4+n]
 		q, err := wParseReq(body)
+		if err != nil && q != nil && q.Type == wtExtended && q.ExtName != "" && q.ExtName != "statvfs@openssh.com" && q.ExtName != "posix-rename@openssh.com" && q.ExtName != "hardlink@openssh.com" {
+			// an extension this package's servers do not implement: its payload is opaque to them
+			err = nil
+		}
 		if err != nil {
 			// attribute blocks: a flags word that promises values that are not there.
 			// The draft calls that malformed; servers commonly ignore attributes they do not use.
@@ -308,7 +312,7 @@ func c07Run(r *vfRun, sim *vfSim, raw [][]byte, tail []byte) *c07Outcome {
 			sim.fail("C07/file-left-open", "fd", "Serve returned but %d files of the served tree are still open: %v", len(left), left)
 			return nil
 		}
-		out.snapshot = vfSnapshot(s.root, false)
+		out.snapshot = strings.ReplaceAll(vfSnapshot(s.root, false), s.root, "<root>")
 	} else {
 		s.fs.mu.Lock()
 		for _, o := range s.fs.objs {
